@@ -136,6 +136,10 @@ func (fv *FV) parseTypeName(name string) types.Type {
 // heapKeysOfTypeName: heap("T") names the heap holding objects of type T; for
 // a map type both the value and the domain heaps.
 func (fv *FV) heapKeysOfTypeName(name string) []string {
+	if strings.HasPrefix(name, "impl:") {
+		// impl:GEN.Field — the struct types whose pointer implements the interface
+		return fv.implementorHeaps(name[5:])
+	}
 	t := fv.parseTypeName(name)
 	switch x := t.Underlying().(type) {
 	case *types.Map:
